@@ -57,8 +57,8 @@ def _analyse(prop, trs):
             v = v + tv
             if ndrop: tags['twin-run'] += 1
         for x in v:
-            if x['prop'] == prop:
-                viols.append(dict(x, cfg=tr['cfg'], ops=tr['ops']))
+            if x['prop'] in (prop, '*'):
+                viols.append(dict(x, prop=prop, cfg=tr['cfg'], ops=tr['ops']))
     return divs, viols, tags, len(nontrivial)
 
 
@@ -117,7 +117,7 @@ def _still_fails(prop, cfg, sig):
         v, _ = cw.monitor_trace(tr)
         if prop in ('C16', 'C18'):
             v = v + cw.twin_violations(prop, tr)[0]
-        return any(x['prop'] == prop and x['sig'] == sig for x in v)
+        return any(x['prop'] in (prop, '*') and x['sig'] == sig for x in v)
     return f
 
 
